@@ -420,7 +420,13 @@ func (e *Ev) formatSeq(x *ast.CallExpr, fmtIdx int) (seq Term, ln Term, ok bool)
 			seqs = append(seqs, "(hex6upper "+c.T+")")
 			ln = sAdd(ln, "6")
 		default:
-			return "", "", false
+			// a verb that is not modelled formats to an unknown text
+			e.fx.useSeq = true
+			us := e.fx.declare(sortSeq, "fmtopaque")
+			ul := e.fx.declare(sortInt, "fmtopaque_len")
+			e.fx.emit(fmt.Sprintf("(assert (and (<= 0 %s) (= (bs_len %s) %s)))", ul, us, ul))
+			seqs = append(seqs, us)
+			ln = sAdd(ln, ul)
 		}
 	}
 	e.fx.useSeq = true
